@@ -75,6 +75,9 @@ class ConverterRaised(Exception):
         self.error, self.steps = error, steps
 
 
+_REUSED = [False]  # set per task (task["reused_converter"]) by run_convert / the replay
+
+
 def _convert(conv, problem, plan, agents, flag, via_file):
     import pddl_plus_parser.multi_agent.single_agent_plan_converter as spc
     steps = []
@@ -84,6 +87,12 @@ def _convert(conv, problem, plan, agents, flag, via_file):
         steps.append([(ac.name, list(ac.parameters)) for ac in joint_action])
         return real(domain, state, joint_action, *a, **k)
 
+    if _REUSED[0]:
+        # the converter object has converted before: the same plan under the other value of the flag (its result is not judged)
+        try:
+            _convert_inner(conv, problem, plan, agents, not flag, via_file)
+        except Exception:  # noqa
+            pass
     spc.apply_actions = recording
     try:
         return _convert_inner(conv, problem, plan, agents, flag, via_file)
@@ -141,6 +150,7 @@ def run_convert(task):
             world.problem.initial_state_predicates = state.state_predicates
             world.problem.initial_state_fluents = state.state_fluents
             conv = PlanConverter(world.domain)
+            _REUSED[0] = bool(task.get("reused_converter"))
             joint = _convert(conv, world.problem, plan, agents, flag, task.get("via_file"))
             return [[(ac.name, list(ac.parameters)) for ac in j.actions] for j in joint]
 
@@ -288,6 +298,7 @@ def concrete_convert(task, atoms, fls):
     _, _, ev = seqsem.eval_state_exact(comp, seq[3], seq[4], list(atoms), list(fls), atoms, fls)
     out = {"sequential_plan_valid": bool(ev(z3.And(seq[0], seq[1], seq[2])))}
     try:
+        _REUSED[0] = bool(task.get("reused_converter"))
         joint = _convert(PlanConverter(world.domain), world.problem, plan, task["agents"], task["flag"], task.get("via_file"))
     except Exception as e:  # noqa
         out["observed"] = f"{type(e).__name__}: {e}"
@@ -443,7 +454,8 @@ def tasks_for(tier, seed):
                 k = len(tasks) % 3
                 agents = list(agents[k:]) + list(agents[:k]) if len(agents) == 3 else (list(reversed(agents)) if k else list(agents))
                 tasks.append({"kind": "convert", "plan": p, "agents": agents, "flag": flag, "cap": 9 if tier == "quick" else 12,
-                              "max_paths": 3000 if tier == "quick" else 30000, "via_file": len(tasks) % 3 == 0})
+                              "max_paths": 3000 if tier == "quick" else 30000, "via_file": len(tasks) % 3 == 0,
+                              "reused_converter": len(tasks) % 4 == 1})
     for shape in ([([1, 1], "a1")], [([2], "a2"), ([1, 1], "a1")], [([1, 1, 1], "a1")]):
         for prefix in ("", "0: ", "12: "):
             tasks.append({"kind": "extract", "shape": shape, "agents": ["a1", "a2"], "prefix": prefix})
